@@ -482,7 +482,9 @@ def _via_publication(ctx, heap, f, root):
         for n in iter_own_nodes(g.node):
             if isinstance(n, ast.Assign) and any(isinstance(t, ast.Attribute) and t.attr == attr and isinstance(t.value, ast.Name)
                                                  and t.value.id == "self" for t in n.targets):
-                if _memo_guard(g, n, n.targets[0]) is None:
+                # a lazily created, long-lived object (memo guard at the store or in every caller of the setter) is
+                # NOT a per-call object: writes to it after publication are seen by every later call
+                if _memo_guard(g, n, n.targets[0]) is None and _memo_guard_in_callers(ctx, g, n.targets[0]) is None:
                     return ("the object is created per call and reaches other threads only through the unsynchronised "
                             "store %s.%s in %s, which is reported there" % (hname, attr, g.qual))
     return None
